@@ -95,6 +95,22 @@ def get_variable_indent_size(source: str) -> int:
     return 0
 
 
+def is_safe_to_convert_to_multiline_string(literals: str) -> bool:
+    """Checks if joining literals into one triple-quoted string keeps their value."""
+    try:
+        value = ast.literal_eval(literals)
+    except (SyntaxError, ValueError):
+        return False
+    if not isinstance(value, str):
+        return False
+    return (
+        "'" not in value
+        and '"""' not in value
+        and not value.endswith('"')
+        and repr(value).count("\\") == value.count("\n")
+    )
+
+
 def format_multiline_strings(source: str, offset: int = 4) -> str:
     """Fromats multiline string declarations."""
     formatted_source = source
@@ -104,6 +120,8 @@ def format_multiline_strings(source: str, offset: int = 4) -> str:
         orginal_str_match = re.search("'.*'", line)
         if orginal_str_match:
             orginal_str = orginal_str_match.group()
+            if not is_safe_to_convert_to_multiline_string(orginal_str):
+                continue
             formatted = convert_to_multiline_string(
                 orginal_str, variable_indent_size=variable_indent_size, offset=offset
             )
